@@ -74,8 +74,8 @@ class ScalarField(DataFieldBase):
 
         if "cartesian" in str(expression):
             # support Cartesian coordinates via a special constant
-            if consts is None:
-                consts = {}
+            # use a copy to not modify the dictionary supplied by the caller
+            consts = {} if consts is None else dict(consts)
             if "cartesian" not in consts:
                 coords_cart = grid.point_to_cartesian(grid.cell_coords)
                 consts["cartesian"] = np.moveaxis(coords_cart, -1, 0)
